@@ -67,6 +67,7 @@ class NumValue(QuantitativeValue):
                     raise ValueError(f"Value '{v}' must have a unit!")
                 return tcls.construct(value=v, unitText=cls.infer_unit)
 
+            arr = None
             if isinstance(v, str):
                 arr = v.strip().split(maxsplit=1)
 
@@ -77,6 +78,10 @@ class NumValue(QuantitativeValue):
             if isinstance(v, tcls.__base__):  # unpack QuantitativeValue
                 unit = v.unitText or v.unitCode or cls.infer_unit
                 arr = (v.value, unit) if unit else (v.value,)
+
+            if arr is None:
+                msg = f"Cannot parse {v} ({type(v).__name__}) into a {tcls.__name__}!"
+                raise TypeError(msg)
 
             # check that value and unit are valid:
 
